@@ -231,7 +231,7 @@ func TestC03(t *testing.T) {
 		for _, c := range vt.TLCCases(t) {
 			yield(c03Decorate(vt.Normalize(c), rnd))
 		}
-		n := vt.Pick(300, 1500)
+		n := vt.Pick(300, 1200)
 		for i := 0; i < n; i++ {
 			yield(c03Random(rnd))
 		}
